@@ -47,16 +47,13 @@ where
           let mut n = n.write().unwrap();
           if *n == 0 {
             sctl_next.sink_next(sbj_next.read().unwrap().observable());
-            sbj_next.read().unwrap().next(x);
-            *n += 1;
-          } else {
-            sbj_next.read().unwrap().next(x);
-            *n += 1;
-            if *n == count {
-              sbj_next.read().unwrap().complete();
-              *sbj_next.write().unwrap() = subjects::Subject::<Item>::new();
-              *n = 0;
-            }
+          }
+          sbj_next.read().unwrap().next(x);
+          *n += 1;
+          if *n == count {
+            sbj_next.read().unwrap().complete();
+            *sbj_next.write().unwrap() = subjects::Subject::<Item>::new();
+            *n = 0;
           }
         },
         move |_, e| {
